@@ -1307,11 +1307,12 @@ def replay_probe(data):
     from harness.common import Ctx
 
     c = Ctx("C16", "quick", 1)
-    c.known = []
+    got = []
+    c.violation = lambda kind, what, d, found_input, finding_class=None: got.append((what, d))   # nothing is written
     hardening(c)
-    hit = [v for v in c.violations if data.get("name") in v["what"] or data.get("probe", "").startswith("empty") and "empty" in v["what"]]
-    for v in hit:
-        print("  FAIL:", v["what"])
+    hit = [w for w, d in got if d.get("name") == data.get("name") and d.get("probe") == data.get("probe")]
+    for w in hit:
+        print("  FAIL:", w)
     return 1 if hit else 0
 
 
